@@ -179,6 +179,8 @@ class Node:
         self.expected_reach_min_rewards = 0
         self.num_states = num_states
         self.check_next_states()
+        # work on a private copy: pruning must not edit the caller's description
+        self.next_states = list(self.next_states)
 
     def __eq__(self, other):
         return (
